@@ -88,6 +88,13 @@ def items(tier):
         for sel, pks in ((["dc"], [""]), (["de"], ["p/q"]), (["de", "dc"], ["p", ""]), (["dk", "de"], ["", "p/q"]), (["dc", "dh", "de"], ["p", "", "p/q"])):
             for comb_pkg in PKGS:
                 out.append({"sel": sel, "comb_pkg": comb_pkg, "dep_pkgs": pks, "pre": "absent", "cached": False, "layout": layout})
+    # prior state "an earlier run left the dependency's output directory behind EMPTY" (a command that wrote nothing or failed before
+    # writing): what counts is the directory's content when the combine runs, not when the plan is built
+    for sel in sels:
+        if len(sel) <= 2 and any(k in ("dc", "dk", "dh") for k in sel):
+            for comb_pkg in PKGS[:2]:
+                pks = [PKGS[(i + 1) % len(PKGS)] for i in range(len(sel))]
+                out.append({"sel": list(sel), "comb_pkg": comb_pkg, "dep_pkgs": pks, "pre": "absent", "cached": False, "empty_dep_dirs": True})
     # special histories: the COND file is edited between two runs so that the entry NAME stays and the dependency changes package;
     # a cached experiment whose recorded version directory is gone, listed before other dependencies
     out.append({"special": "retarget"})
@@ -245,6 +252,10 @@ def run_item(item, tier):
     elif item["pre"] == "dir":
         pre_tree[os.path.join(entry, "inner.txt")] = "user data\n"
     root = driver.fresh_project(files, name="c18[v2]" if item.get("layout") == "glob-path" else "c18", pre_tree=pre_tree, index_rows=rows)
+    if item.get("empty_dep_dirs"):
+        for k, pk in zip(sel, dep_pkgs):
+            if k != "de" and k != "dg":
+                os.makedirs(os.path.join(root, "cond-out", pk, k + ".task"), exist_ok=True)
     if item.get("layout") == "symlink-out":
         real_out = os.path.join(driver.scratch_root(), "c18-real", "deeper", "down", "out")
         shutil.rmtree(os.path.join(driver.scratch_root(), "c18-real"), ignore_errors=True)
